@@ -86,7 +86,7 @@ type Run struct {
 	tmp      string
 }
 
-var lazyBlacklist = []string{"unicode", "runtime", "reflect", "syscall", "fmt", "crypto/", "regexp", "net", "internal/poll",
+var lazyBlacklist = []string{"unicode", "unicode/utf16", "runtime", "reflect", "syscall", "fmt", "crypto/", "regexp", "net", "internal/poll",
 	"internal/cpu", "math/rand", "encoding/json", "text/template", "html", "log", "testing", "golang.org/", "gopkg.in/", "github.com/ProtonMail",
 	"github.com/klauspost", "github.com/ulikunitz", "github.com/spf13", "dario.cat", "github.com/go-git", "github.com/Masterminds", "github.com/invopop",
 	"github.com/goreleaser/chglog", "github.com/goreleaser/fileglob", "github.com/gobwas", "github.com/cavaliergopher", "internal/godebug", "internal/syscall",
@@ -108,10 +108,13 @@ func NewProgram(l *load.Loaded, tier string) *xexec.Program {
 		}
 		ok := true
 		for _, b := range lazyBlacklist {
-			if path == b || strings.HasPrefix(path, b) {
+			if path == b || strings.HasPrefix(path, strings.TrimSuffix(b, "/")+"/") {
 				ok = false
 				break
 			}
+		}
+		if path == "unicode/utf8" {
+			ok = true
 		}
 		if ok {
 			p.LazyInit[path] = true
